@@ -771,7 +771,7 @@ def shape_key(d):
             if k == 'MinimumTrials':
                 k += str(c['k'])
             elif 'k' in c:
-                k += ('>1' if c['k'] > 1 else '1') + ('L' if c.get('level') else 'F') + kind(c['factor'])
+                k += ('1' if c['k'] == 1 else ('2' if c['k'] == 2 else '3+')) + ('L' if c.get('level') else 'F') + kind(c['factor'])
             elif k == 'Pin':
                 k += ('neg' if c['index'] < 0 else 'pos') + kind(c['factor'])
             elif 'factor' in c:
